@@ -38,8 +38,17 @@ typedef struct glyph_t glyph_t;
 
 /* XXX: These numbers are arbitrary---we've never done any measurements.
  */
+#if defined(PIXMAN_VERIF) && defined(PIXMAN_VERIF_GLYPH_HIGH_WATER)
+/* Verification hook (only with -DPIXMAN_VERIF): a small table, so that
+ * collisions, a full table and tombstone build-up are reachable with a
+ * handful of operations.  HIGH_WATER must be a power of two.
+ */
+#define N_GLYPHS_HIGH_WATER  (PIXMAN_VERIF_GLYPH_HIGH_WATER)
+#define N_GLYPHS_LOW_WATER   (PIXMAN_VERIF_GLYPH_LOW_WATER)
+#else
 #define N_GLYPHS_HIGH_WATER  (16384)
 #define N_GLYPHS_LOW_WATER   (8192)
+#endif
 #define HASH_SIZE (2 * N_GLYPHS_HIGH_WATER)
 #define HASH_MASK (HASH_SIZE - 1)
 
